@@ -141,6 +141,7 @@ func runCfCase(c CfCase, tag string) (string, map[string]int) {
 	}
 	proc, served := -1, -1
 	runOK := false
+	cfStartable := true
 	if c.Proc && parses {
 		payload := bytes.Repeat([]byte(`{"k":"vvvvvvvvvvvvvvvv"},`), 200)
 		be := httptest.NewServer(http.HandlerFunc(func(w http.ResponseWriter, r *http.Request) {
@@ -158,9 +159,20 @@ func runCfCase(c CfCase, tag string) (string, map[string]int) {
 		if run.AdminAPI.Enabled {
 			run.AdminAPI.Port = freePort()
 		}
+		startable := true
+		names := map[string]bool{}
 		for i := range run.Backends {
-			run.Backends[i].Address = be.URL
+			if _, ok := urlParseOK(run.Backends[i].Address); ok {
+				run.Backends[i].Address = be.URL
+			} else {
+				startable = false // kept as it is: the balancer cannot register it
+			}
+			if names[run.Backends[i].Name] {
+				startable = false
+			}
+			names[run.Backends[i].Name] = true
 		}
+		cfStartable = startable
 		run.HealthChecks.Active.Enabled = false
 		if run.Logging.Level == "" || run.Logging.Level == "debug" || run.Logging.Level == "info" {
 			run.Logging.Level = "error"
@@ -233,7 +245,7 @@ func runCfCase(c CfCase, tag string) (string, map[string]int) {
 		stats["rejected"]++
 	}
 	isDoc := c.Kind == "doc"
-	return fmt.Sprintf("mkCfCase %s %s %s %s %s %s %s %s %s %s", rec, B(enabled), chain, B(validates), B(loaded), B(chainOK), ZI(proc), ZI(served), B(runOK), B(isDoc)), stats
+	return fmt.Sprintf("mkCfCase %s %s %s %s %s %s %s %s %s %s %s", rec, B(enabled), chain, B(validates), B(loaded), B(chainOK), ZI(proc), ZI(served), B(runOK), B(isDoc), B(cfStartable)), stats
 }
 
 // ---- generators ----
@@ -290,8 +302,15 @@ func genCfConfig(g *Rng) config.Config {
 			c.Logging.Format = []string{"", "text", "json", "console", "pretty", "JSON", "logfmt"}[g.Intn(7)]
 		}
 	}
+	if g.Chance(25) { // address forms the documentation does not rule out
+		c.Backends[0].Address = []string{"http://backend1", "https://api.internal.example", "http://10.0.0.7", "http://[::1]", "http://backend1/base", "http://[2001:db8::1]:8080", "http://localhost:80/"}[g.Intn(7)]
+	}
 	if g.Chance(20) {
-		switch g.Intn(5) {
+		switch g.Intn(7) {
+		case 5: // a name used twice: every documented constraint holds, but the second one cannot be registered
+			c.Backends = append(c.Backends, config.BackendConfig{Name: c.Backends[0].Name, Address: "http://127.0.0.1:9003", Weight: 1})
+		case 6: // an address url.Parse rejects
+			c.Backends = append(c.Backends, config.BackendConfig{Name: "s3", Address: []string{"http://[::1:8081", "http://bad%zzescape", "http://a b/"}[g.Intn(3)], Weight: 1})
 		case 0:
 			c.Backends = nil
 		case 1:
@@ -397,6 +416,20 @@ func TestConfig(t *testing.T) {
 		}
 		cfg.Plugins = config.PluginsConfig{Enabled: true, Chain: []config.PluginConfig{{Name: "gzip", Config: map[string]interface{}{
 			"level": level, "min_size": 64, "content_types": []interface{}{"application/json"}}}}}
+		y, _ := yaml.Marshal(cfg)
+		emit("corpus", CfCase{Kind: "struct", YAML: string(y), Proc: true})
+	}
+	// accepted by the validator, yet one backend cannot be registered (a name used twice, an address url.Parse rejects, at the
+	// first, the middle or the last position): the binary must refuse to start rather than serve with part of its pool
+	for _, bs := range [][]config.BackendConfig{
+		{{Name: "s1", Address: "http://127.0.0.1:9001", Weight: 1}, {Name: "s1", Address: "http://127.0.0.1:9002", Weight: 1}},
+		{{Name: "s1", Address: "http://127.0.0.1:9001", Weight: 1}, {Name: "s2", Address: "http://127.0.0.1:9002", Weight: 1}, {Name: "s1", Address: "http://127.0.0.1:9003", Weight: 2}},
+		{{Name: "s1", Address: "http://[::1:8081", Weight: 1}, {Name: "s2", Address: "http://127.0.0.1:9002", Weight: 1}},
+		{{Name: "s1", Address: "http://127.0.0.1:9001", Weight: 1}, {Name: "s2", Address: "http://bad%zzescape", Weight: 1}, {Name: "s3", Address: "http://127.0.0.1:9003", Weight: 1}},
+		{{Name: "s1", Address: "http://127.0.0.1:9001", Weight: 1}, {Name: "s2", Address: "http://a b/", Weight: 1}},
+	} {
+		cfg := baseConfig()
+		cfg.Backends = bs
 		y, _ := yaml.Marshal(cfg)
 		emit("corpus", CfCase{Kind: "struct", YAML: string(y), Proc: true})
 	}
